@@ -306,6 +306,7 @@ export async function run(ctx) {
       { id: "intersection-members-project-one-property", text: "type T3 = { name?: { items?: string[] } };\ntype T2 = { name: { kind: string } };\ntype X = T3 & T2;", values: [{ name: { kind: "k", items: ["a"] } }, { name: { kind: "k" } }] },
       { id: "sorted-keys-named-like-prototype-members", text: "type X = Record<string, any>;", values: [{ constructor: {}, toString: 1, b: 2 }, { hasOwnProperty: null }] },
       { id: "optional-key-named-like-a-prototype-member", text: "type X = { toString?: string; a: number };", values: [{ a: 1 }, Object.assign(Object.create(null), { a: 1 }), { a: 1, toString: "s" }] },
+      { id: "built-in-leaf-kept-by-one-union-member", text: 'type D = { t?: number };\ntype X = { items: D | any; n: number } | { tag: "c"; items: Uint32Array } | { tag: "d"; items: Date | D };', values: [{ items: new Uint32Array(2), n: 1, tag: "c" }, { items: new Date(0), n: 1, tag: "d" }, { items: new Map([["k", 1]]), n: 2 }] },
       { id: "intersection-of-maps", text: "type X = { m: Map<string, { a: number }> } & { m: Map<string, { b: number }> };", values: [{ m: new Map([["k", { a: 1, b: 2 }]]) }] },
     ];
     for (const p of PROBES) {
